@@ -1082,6 +1082,10 @@ class Engine:
         if isinstance(container, SeqV) and container.kind == "range":
             lo, hi = container.lo, container.hi
             return And(to_z3(lo) <= x, x < to_z3(hi))
+        if isinstance(container, Rec) and ("rec:" + container.name, "__contains__") in self.methods:
+            # data known only as a term (pixel data, ...): membership is whatever the unit's contract says (usually: unknown)
+            (r, _), = self.methods[("rec:" + container.name, "__contains__")](self, s, container, (x,), {})
+            return r
         raise Unsupported(f"`in` on {container!r}")
 
     def _mark(self):
